@@ -230,6 +230,43 @@ def run(chk):
             assumption_event(chk, g, r)
         except RuntimeError:
             chk.count("generator_gave_up")
+    # make_real on powers and products of complex-conjugate amplitudes
+    from adcgen.indices import get_symbols
+    from adcgen.sympy_objects import Amplitude, AntiSymmetricTensor
+    from sympy import Rational
+    i, j, a, b = get_symbols("ijab")
+    gsa = tn.gs_amplitude
+    T1cc = Amplitude(f"{gsa}1cc", (a, b), (i, j))
+    T1 = Amplitude(f"{gsa}1", (a, b), (i, j))
+    S2cc = Amplitude(f"{gsa}2cc", (a,), (i,))
+    Fia = AntiSymmetricTensor(tn.fock, (i,), (a,), 0)
+    for x0, tsy in [(Rational(1, 4) * T1cc ** 2, []),
+                    (T1cc ** 2 * T1, []), (S2cc ** 2 * Fia, []),
+                    (S2cc ** 3, [i, a]), (T1cc * T1 ** 2, []),
+                    (T1cc ** 2, [i, j, a, b]),
+                    (S2cc * T1cc ** 2 * Fia, [])]:
+        pre = Expr(x0, target_idx=tsy)
+        post, exc = guarded(Expr, x0, target_idx=tsy, real=True)
+        chk.count("assumption_calls")
+        what = f"Expr({x0}, real=True)"
+        if exc:
+            chk.report_direct("assume:exception", f"{what} raised "
+                              f"{exc['type']}: {exc['msg']}", exc)
+            continue
+        post2 = Expr(post.sympy, target_idx=tsy, real=True).make_real()
+        try:
+            ev, ctx = build.valpres(pre, post, op="assume", key="assume:cc-powers",
+                                    what=what, tgt_syms=tsy,
+                                    sym=[tn.fock, tn.eri],
+                                    more_sides={"post2": post2}, alias_cc=True)
+        except adapter.Unsupported:
+            chk.count("unsupported")
+            continue
+        ev["a"] = {"affected": [v for n, v in ctx.names.items()
+                                if n[:len(gsa)] == gsa] +
+                   [ctx.names[n] for n in (tn.fock, tn.eri) if n in ctx.names]
+                   or [-1]}
+        chk.add_event(ev)
     chk.notes["exhaustive"] = True
     chk.judge(chunk=1200)
     if chk.tier != "quick":
